@@ -227,7 +227,7 @@ class TriggerDecorator(Decorator, ABC):
         # kwargs for all triggers
         if "kwargs" not in cls.kwargs_schema.schema.keys():
             cls.kwargs_schema = cls.kwargs_schema.extend(
-                {vol.Optional("kwargs"): vol.Coerce(dict[str, Any], msg="should be type dict")}
+                {vol.Optional("kwargs"): vol.Any(None, vol.Coerce(dict[str, Any]), msg="should be type dict")}
             )
 
     async def dispatch(self, data: DispatchData) -> None:
@@ -235,7 +235,7 @@ class TriggerDecorator(Decorator, ABC):
         if not data.trigger:
             data.trigger = self
 
-        data.func_args.update(self.kwargs.get("kwargs", {}))
+        data.func_args.update(self.kwargs.get("kwargs") or {})
 
         await self.dm.dispatch(data)
 
